@@ -138,7 +138,8 @@ def check(router_regs: list, jobs: list, o: dict, model: Model, res: Result, lab
         exp_model = None if route == "none" else int(route)
         # with a second worker on a shared queue the two consumers poll in lock-step under virtual time: a job that was
         # simply not reached (still waiting, untouched) is the recorded livelock F15
-        starved = o["second"] is not None and not runs and o["after"][q].get(jid) == ("simple", 0) and q == QUEUES[0]
+        # (at the instant of the snapshot the rotating message may be in a consumer's hand: "processing", counter untouched)
+        starved = o["second"] is not None and not runs and o["after"][q].get(jid) in (("simple", 0), ("processing", 0)) and q == QUEUES[0]
         if own:
             if runs != [fid_of[name][1]]:
                 res.bad("impl", "a job was not executed exactly once by the actor registered (last) under its name", case=jcase,
